@@ -373,6 +373,10 @@ def run(m, tier):
         f.rule = "C03.R8"
     results.append(r8)
     results.append(engine_tables.binary_op_rule(m, "C03.R9"))
+    from rules import reader_rules
+    r10 = reader_rules.replace_map_table_rule(m, "C03.R10")
+    r10.title = "no real literal with a signed exponent stays visible after string_replace_map (its sign would be split as an operator): " + r10.title
+    results.append(r10)
     expl = ("Decides structural clauses of C03: the 12-level expression table extracted from the match methods equals the standard's "
             "(operator, operand classes, split side, fall-through; Parenthesis wraps Expr under Primary); the generic binary engine, "
             "specialised for right=True/False, reaches a match only after the rightmost/leftmost split and builds each operand from its "
